@@ -48,7 +48,7 @@ def d_rv(rv):
 
 def d_ann(ann):
     rules, note = ann if ann else ([], '')
-    return '{' + ';'.join(n + '=' + d_rv(v) for n, v in rules) + '}<' + hexd(squeeze(note.strip()).encode()) + '>'
+    return '{' + ';'.join(n + '=' + d_rv(v) for n, v in rules) + '}<' + hexd(squeeze(note.strip(' \t\r\n')).encode()) + '>'
 
 
 def d_node(n):
@@ -76,7 +76,7 @@ def a_rv(r, top_name=None):
 
 def a_ann(a):
     rules = [(k, v) for k, v in (a.get('Rules') or {}).items() if v.get('Source') == 1]
-    return '{' + ';'.join(k + '=' + a_rv(v, k) for k, v in rules) + '}<' + hexd(squeeze((a.get('Comment') or '').strip()).encode('utf-8', 'surrogatepass')) + '>'
+    return '{' + ';'.join(k + '=' + a_rv(v, k) for k, v in rules) + '}<' + hexd(squeeze((a.get('Comment') or '').strip(' \t\r\n')).encode('utf-8', 'surrogatepass')) + '>'
 
 
 def a_node(a):
@@ -190,7 +190,9 @@ class Layout:
 
 
 # ---------- generator of valid schema models ----------
-NOTES = ['', '', 'a note', 'note with - dash', 'the id, see {doc}', 'two  spaces', 'q"uote', 'ünï', 'x']
+NOTES = ['', '', 'a note', 'note with - dash', 'the id, see {doc}', 'two  spaces', 'q"uote', 'ünï', 'x',
+         # white space that is not a schema blank belongs to the note: no-break space, vertical tab, form feed, em space, line separator
+         'price in €\u00a0', '\u00a0lead', 'tab\x0b', '\x0c\x0c', '\u2003em\u2003', 'ls\u2028']
 
 
 def gen_model(rng, depth=0, prop=False):
